@@ -49,7 +49,9 @@ TIME_FIELDS = [(0, 0, 0, 0), (0, 0, 0, 1), (0, 0, 59, 0), (0, 59, 0, 0), (23, 0,
 def tzinfos():
     return [None, dt.timezone.utc, dt.timezone(dt.timedelta(hours=1)), dt.timezone(dt.timedelta(hours=-23, minutes=-59), 'N'),
             dt.timezone(dt.timedelta(0), 'zero'), dt.timezone(dt.timedelta(seconds=1, microseconds=5)),
-            pytz.utc, pytz.timezone('Europe/Helsinki'), pytz.timezone('US/Eastern'), pytz.FixedOffset(90)]
+            pytz.utc, pytz.timezone('Europe/Helsinki'), pytz.timezone('US/Eastern'), pytz.FixedOffset(90),
+            pytz.timezone('GMT'), pytz.timezone('Etc/UTC'), pytz.timezone('Etc/GMT+5'), pytz.timezone('Zulu'),
+            pytz.timezone('Etc/GMT-14'), pytz.FixedOffset(0)]
 
 
 def datetimes():
@@ -68,7 +70,7 @@ def datetimes():
 
 def times():
     for h, mi, s, us in TIME_FIELDS:
-        for tz in tzinfos()[:7]:
+        for tz in tzinfos()[:7] + tzinfos()[10:12]:
             for fold in (0, 1):
                 yield dt.time(h, mi, s, us, tzinfo=tz, fold=fold)
 
@@ -138,7 +140,9 @@ def misc_values():
     yield UnicodeDecodeError('utf8', b'x', 0, 1, 'r')
     for P in (pathlib.PurePosixPath, pathlib.PureWindowsPath):
         for s in ('a/b', '/', '.', 'c:/x/y', '//a//b', 'a/../b/c', '/'.join('seg%d' % i for i in range(30)),
-                  'x' * 100, "it's", 'sp ace/q"uote'):
+                  'x' * 100, "it's", 'sp ace/q"uote',
+                  '//srv/share/' + '/'.join('seg%d' % i for i in range(12)), '//server/share/some dir/another dir/file name.txt',
+                  '//' + 'a' * 30 + '//' + 'b' * 30, '/' + '/'.join('d' * 9 for _ in range(8))):
             yield P(s)
     yield from tzinfos()[1:]
 
